@@ -1,5 +1,5 @@
 CONSTANTS N = 1 Threads = {"a", "b", "c"} Prog <- MCProg
-  Dev_ReturnKeepsLease = FALSE Dev_NoNotifyOnReturn = FALSE Dev_CloseNoWake = FALSE Dev_NoClosedCheck = FALSE
+  Dev_ReturnKeepsLease = FALSE Dev_NoNotifyOnReturn = FALSE Dev_CloseNoWake = FALSE Dev_NoClosedCheck = FALSE Dev_CloseKeepsQueueOpen = FALSE
 SPECIFICATION Spec
 INVARIANT Exclusive
 INVARIANT Conserved
